@@ -321,6 +321,22 @@ fn state(acc: &mut Acc, utc: Rd, off: i32, light: bool, args_u32: &[u32], years_
     }
 }
 
+/// Histories of length two on one thread over states that a hidden cache of "the last wall clock" could confuse: a
+/// leap second and the instant one second later (equal nanosecond timestamps), the same instant at two offsets, the
+/// same offset at two instants.
+fn history_pairs(acc: &mut Acc, args_u32: &[u32], years_arg: &[i64]) {
+    let z = days_from_civil(2016, 12, 31);
+    let mut sts: Vec<(Rd, i32)> = vec![];
+    for o in [0i32, 19_800, -3600, 30] {
+        sts.push(((z, 86_399, 1_500_000_000), o));
+        sts.push(((z + 1, 0, 500_000_000), o));
+        sts.push(((z, 86_399, 500_000_000), o));
+    }
+    for &i in &pair_order(sts.len()) {
+        state(acc, sts[i].0, sts[i].1, true, args_u32, years_arg);
+    }
+}
+
 /// the offset range: east / west constructors accept exactly (-24h, 24h), readers return what was given
 fn offset_constructors(acc: &mut Acc) {
     let mut os: Vec<i64> = (-90_000i64..=90_000).collect();
@@ -624,6 +640,7 @@ fn main() {
                 pairs(acc, a, oa, &sts[i..]);
             }
             offset_constructors(acc);
+            history_pairs(acc, &args_u32, &years_arg);
             zone_with_gap_and_fold(acc);
             range_end_safety(acc, Z_SINGLE);
             acc.traces += 1;
